@@ -108,27 +108,26 @@ func (b *BuildRequestURL) Build(withParams ...M) *url.URL {
 		return u
 	}
 
-	var n string
-	var varParams = make(map[string]string)
+	var n, name string
+	var oldNews = make([]string, 0, len(ss)*2)
 
-	// TODO should optimize ...
 	for _, str := range ss {
 		nvStr := str[1 : len(str)-1]
 
 		if strings.IndexByte(nvStr, ':') > 0 {
 			nv := strings.SplitN(nvStr, ":", 2)
 			n, _ = strings.TrimSpace(nv[0]), strings.TrimSpace(nv[1])
-			varParams[str] = "{" + n + "}"
+			name = "{" + n + "}"
 		} else {
-			varParams[str] = str
+			name = str
 		}
+
+		oldNews = append(oldNews, str, goutil.String(b.params[name]))
 	}
 
-	for paramRegex, name := range varParams {
-		path = strings.NewReplacer(paramRegex, goutil.String(b.params[name])).Replace(path)
-	}
-
-	u.Path = path
+	// Notice: replace all vars in one pass. A value that looks like another var must not be replaced again,
+	// and the result must not depend on an iteration order.
+	u.Path = strings.NewReplacer(oldNews...).Replace(path)
 
 	return u
 }
